@@ -477,14 +477,9 @@ func (w *worker[T, JobType]) goListenToContext() {
 	go func(c context.Context) {
 		<-c.Done()
 
-		// Restart replaces the context: the listener of a previous run must not stop the new one
-		w.mx.RLock()
-		current := w.ctx == c
-		w.mx.RUnlock()
-
-		if current {
-			w.Stop()
-		}
+		// Restart replaces the context: the listener of a previous run must not stop the new one.
+		// Whether this is still the current run is decided inside stop, under the lifecycle lock.
+		w.stop(c)
 	}(ctx)
 }
 
@@ -656,8 +651,20 @@ func (w *worker[T, JobType]) Pause() error {
 }
 
 func (w *worker[T, JobType]) Stop() error {
+	return w.stop(nil)
+}
+
+// stop stops the worker. With a non-nil run context it only does so while that context is still the
+// worker's current one: the check is made under the lifecycle lock, which Restart holds while it
+// replaces the context, so the listener of a previous run can never stop the run that followed it.
+func (w *worker[T, JobType]) stop(run context.Context) error {
 	for {
 		w.lifecycle.Lock()
+
+		if run != nil && w.Context() != run {
+			w.lifecycle.Unlock()
+			return nil
+		}
 
 		switch w.status.Load() {
 		case stopped:
